@@ -37,6 +37,9 @@ def _proj():
         # an unparsable file: linters report their own *.syntax-error ids through every entry point alike
         (Path(d) / "src" / "broken.py").write_text("class Broken:\n    def run(self):\n        return (1 +\n\ndef oops(:\n    pass\n")
         (Path(d) / "src" / "broken.ts").write_text("function broken( {\n  if (x {\n    return 3975;\n")
+        # a TypeScript file in a tests/ directory of the project: exempt from magic-numbers however the target is spelled
+        (Path(d) / "tests").mkdir()
+        (Path(d) / "tests" / "calc.ts").write_text("export function f(x: number): number {\n  return x * 3600;\n}\n")
         body = triggers.DUP_FILES["dup1.py"].split("\n", 1)[1].replace("total", "amount")
         (Path(d) / "src" / "selfdup.py").write_text("def one(rows):\n" + body + "\n\ndef two(rows):\n" + body)
         _P["d"] = Path(d)
@@ -90,8 +93,12 @@ def h_cli_vs_api(ctx):
     from src.cli_main import cli
     d = _proj()
     cmd = ctx.pick("command", tuple(c for c in catalogue.linter_commands() if c != "file-placement"))
-    target = ctx.pick("target", ("directory", "file:dup1.py", "file:selfdup.py", "file:magic.py", "file:unwrap.rs", "file:nest.ts", "file:broken.py", "file:broken.ts", "subdir"))
-    t = {"directory": d / "src", "subdir": d / "src" / "sub"}.get(target) or d / "src" / target.split(":")[1]
+    target = ctx.pick("target", ("directory", "file:dup1.py", "file:selfdup.py", "file:magic.py", "file:unwrap.rs", "file:nest.ts", "file:broken.py", "file:broken.ts", "subdir", "relative:tests/calc.ts", "relative:src/magic.ts"))
+    t = {"directory": d / "src", "subdir": d / "src" / "sub"}.get(target) or (d / target.split(":")[1] if target.startswith("relative:") else d / "src" / target.split(":")[1])
+    cli_target, cwd0 = str(t), os.getcwd()
+    if target.startswith("relative:"):      # the command line gets the path relative to the project directory (cwd), the library the absolute one
+        cli_target = target.split(":")[1]
+        os.chdir(d)
     # the configuration may also be handed over explicitly: `--config FILE` / Linter(config_file=FILE)
     explicit = ctx.pick("explicit_config", ("none", "with-ignore-list"))
     cfg_args, cfg_kw = [], {}
@@ -100,12 +107,16 @@ def h_cli_vs_api(ctx):
         cf.write_text((d / ".thailint.yaml").read_text() + "\nignore:\n  - 'src/magic.py'\n  - 'src/sub/'\n  - '*.rs'\n")
         cfg_args, cfg_kw = ["--config", str(cf)], {"config_file": cf}
     ign.clear_ignore_parser_cache()
-    r = CliRunner().invoke(cli, [cmd, "--format", "json"] + cfg_args + [str(t)])
+    try:
+        r = CliRunner().invoke(cli, [cmd, "--format", "json"] + cfg_args + [cli_target])
+    finally:
+        os.chdir(cwd0)
     ctx.require("cli-run-completes", r.exit_code in (0, 1), code=r.exit_code, out=r.output[-200:])
     if r.exit_code not in (0, 1):
         return
     doc = json.loads(r.output)
-    cli_v = Counter((v["rule_id"], v["file_path"], v["line"], v["column"], v["message"]) for v in doc["violations"])
+    cli_v = Counter((v["rule_id"], v["file_path"] if os.path.isabs(v["file_path"]) else str(d / v["file_path"]), v["line"], v["column"], v["message"])
+                    for v in doc["violations"])
     ign.clear_ignore_parser_cache()
     api_all = Linter(project_root=d, **cfg_kw).lint(t)
     own_ids = sorted({v.rule_id for v in api_all if catalogue.owns(cmd, v.rule_id)})
